@@ -447,6 +447,8 @@ _vbi_idl_demux_init		(vbi_idl_demux *	dx,
 	dx->channel		= channel;
 	dx->address		= address;
 
+	dx->flags		= 0;
+
 	vbi_idl_demux_reset (dx);
 
 	dx->callback		= callback;
